@@ -773,6 +773,70 @@ namespace
 
         // ------------------------------------------------------------------ growth table (information only)
         // ticks for principal magnitudes +-2^k on the functions that contain tick sites; any budget overrun is still a violation
+        // every entry of the nearpi table (both signs) through every function that reduces an argument modulo pi/2, alone and next to the
+        // companions that change how the batch is routed (a lane beyond the medium range, an infinite or NaN lane): the table is small enough
+        // to be walked completely, which the main generator (one random entry per draw) cannot do within a quick run
+        template <class W>
+        bool nearpi_sweep(const sim::Args& args, W& w)
+        {
+            static const char* TRIG[] = { "sin", "cos", "tan", "sincos", "csin", "ccos", "ctan", "cexp", "csinh", "ccosh", "ctanh", "polar" };
+            std::vector<int> fns;
+            for (size_t i = 0; i < table.size(); ++i)
+            {
+                bool trig = false;
+                for (const char* t : TRIG)
+                    trig |= !strcmp(t, table[i].name);
+                if (trig && table[i].tname[0] == 'f' && (!strcmp(table[i].arch, "avx512f") || !strcmp(table[i].arch, "sse2")) && (only_fn.empty() || only_fn == table[i].name))
+                    fns.push_back((int)i);
+            }
+            uint64_t calls = 0, item = 0;
+            for (int fn : fns)
+            {
+                const FnEntry& fe = table[(size_t)fn];
+                const bool f32 = fe.elem_size == 4;
+                const std::vector<uint64_t>& tab = f32 ? nearpi_f32 : nearpi_f64;
+                const uint64_t signbit = 1ull << (f32 ? 31 : 63);
+                const uint64_t comp[4] = { 0, from_double(1e22, f32), from_double(INFINITY, f32), from_double(NAN, f32) };
+                for (size_t k = 0; k < tab.size(); ++k)
+                    for (int sg = 0; sg < 2; ++sg)
+                        for (int m = 0; m < 4; ++m, ++item)
+                        {
+                            if (item % args.stride != args.offset)
+                                continue;
+                            const uint64_t x = tab[k] | (sg ? signbit : 0);
+                            auto build = [&]() -> Plan
+                            {
+                                Op op;
+                                op.fn = fn;
+                                for (int i = 0; i < 32; ++i)
+                                {
+                                    op.a[i] = i >= fe.lanes ? 0 : (m == 0 || i == (int)(k % (size_t)fe.lanes)) ? x : (i & 1 ? comp[m] : from_double(1.0, f32));
+                                    op.b[i] = i < fe.lanes ? x : 0; // second operand of polar (the angle) gets the same treatment
+                                }
+                                op.family = 8;
+                                op.companions = m ? 2 : 0;
+                                op.binade = (int)((x >> (f32 ? 23 : 52)) & (f32 ? 0xff : 0x7ff));
+                                op.sign = sg;
+                                return Plan { op };
+                            };
+                            Plan pl = build();
+                            uint64_t t = 0;
+                            bool ex = false;
+                            run_call(pl[0], t, ex, nullptr);
+                            ++calls;
+                            ++c_calls;
+                            ++p_nearpi;
+                            c_ticks += t;
+                            c_blocks += last_blocks;
+                            if (ex)
+                                w.process(pl, item, item, build);
+                        }
+            }
+            printf("%s\n", sim::json::dump(Value::object().set("nearpi", Value::object().set("functions", (unsigned long long)fns.size()).set("calls", (unsigned long long)calls)
+                                                                          .set("table_f32", (unsigned long long)nearpi_f32.size()).set("table_f64", (unsigned long long)nearpi_f64.size()))).c_str());
+            return true;
+        }
+
         // "wide independent lanes": for every float/double function on the widest architecture, many calls in which every lane is an independent
         // random value (random significand; exponents either all near one seeded centre or anywhere). Loops of the "iterate until every lane has
         // converged" kind only misbehave for particular COMBINATIONS of ordinary lanes (each lane alone, broadcast, or next to 1.0 is fine), and
@@ -908,6 +972,8 @@ namespace
                 return sweep_f32(args, w);
             if (args.cmd == "blast")
                 return blast(args, w);
+            if (args.cmd == "nearpi")
+                return nearpi_sweep(args, w);
             if (args.cmd != "growth")
                 return false;
             Value tab = Value::object();
